@@ -203,44 +203,7 @@ def run(rep: Report, tier: str) -> None:  # noqa: C901
                                f"instead of {fn_} over the three values"))
 
     # ---- R28.4 ----
-    # decided by evaluation: vp_pair_sql of an enumerated rule whose clauses are declared in an adversarial order (a one-value clause
-    # before a two-value clause sharing its value) is generated by the finite evaluator, the CASE text is parsed and evaluated for every
-    # pair of operand values, and compared with the specification (a clause naming both values wins over a clause naming one)
-    from sa import sqlconc
-    from sa.e6 import ExternalObj, Interp, Raised, Unmodelled
-    n_case = 0
-    clauses = [{"values": ["A"], "result": "A1"}, {"values": ["A", "B"], "result": "AB"}, {"values": ["B"], "result": "B1"}, {"values": ["C", "B"], "result": "CB"}]
-    rule_ = ExternalObj({"name": "r", "signature_type": "variable", "target": "V", "enumerated_clauses": clauses, "aggregate_function": None, "default_value": "D"})
-    fp = P.func(f"{SQLM}.vp_pair_sql")
-    try:
-        case_sql = Interp(P).call(fp, {"rule": rule_, "a_ref": "a", "b_ref": "b"})
-    except (Unmodelled, Raised) as e:
-        raise AnalysisError(f"R28.4: vp_pair_sql outside the evaluator's language for an enumerated rule: {e}")
-    try:
-        parsed = sqlexpr.parse(str(case_sql))
-    except sqlexpr.ParseError as e:
-        raise AnalysisError(f"R28.4: the generated CASE is outside the SQL evaluator's language: {e} [{str(case_sql)[:120]}]")
-    shown = 0
-    for av in ("A", "B", "C", "X"):
-        for bv in ("A", "B", "C", "X"):
-            if av == bv:
-                continue
-            n_case += 1
-            two = [c_ for c_ in clauses if len(c_["values"]) == 2 and set(c_["values"]) == {av, bv}]
-            one = [c_ for c_ in clauses if len(c_["values"]) == 1 and c_["values"][0] in (av, bv)]
-            want = two[0]["result"] if two else (one[0]["result"] if one else "D")
-            try:
-                got = sqlconc.ev(parsed, {"a": av, "b": bv}, {})
-            except sqlconc.SqlError as e:
-                got = f"<error {e}>"
-            rep.instance("R28.4", f"pair/{av}+{bv}", sample={"values": [av, bv], "result": got} if n_case <= 3 else None)
-            if got != want and shown < 4:
-                shown += 1
-                rep.add(transp.fnd("R28.4", f"pair/{av}+{bv}", fp, fp.node.lineno,
-                                   f"enumerated rule `when \"A\" then \"A1\"; when \"A\" and \"B\" then \"AB\"; when \"B\" then \"B1\"; when \"C\" and \"B\" then \"CB\"; else \"D\"`: "
-                                   f"combining {av!r} and {bv!r} yields {got!r}, the rule says {want!r} (a clause naming both values is tested before a clause naming one) "
-                                   f"[generated: {str(case_sql)[:110]}]"))
-    rep.floor("R28.4 value pairs evaluated", n_case, 12)
+    enumerated_pairs(P, rep, "R28.4")
 
     # ---- R28.5 ----
     issues, _ = orderlint.lint_program(P)
@@ -357,3 +320,47 @@ def group_forms_by_rule_kind(P: Program, rep: Report, rule: str) -> None:
                                 f"so permuting the datapoints changes the result" + (" (a pairwise fold of avg is order-dependent: ((a+b)/2+c)/2)" if kind == "avg" else
                                                                                      " whenever the fold is not associative and commutative on its inputs (NULLs, float rounding)")))
     rep.floor(f"{rule} group forms", n, 8)
+
+
+def enumerated_pairs(P: Program, rep: Report, rule: str) -> None:
+    """vp_pair_sql of an enumerated rule generated, parsed and evaluated for every ORDERED pair of operand values (shared with C33: the rule
+    names a SET of two values, so (A, B) and (B, A) - the same two datapoints met in the other row order - must give the same result)."""
+    # decided by evaluation: vp_pair_sql of an enumerated rule whose clauses are declared in an adversarial order (a one-value clause
+    # before a two-value clause sharing its value) is generated by the finite evaluator, the CASE text is parsed and evaluated for every
+    # pair of operand values, and compared with the specification (a clause naming both values wins over a clause naming one)
+    from sa import sqlconc
+    from sa.e6 import ExternalObj, Interp, Raised, Unmodelled
+    n_case = 0
+    clauses = [{"values": ["A"], "result": "A1"}, {"values": ["A", "B"], "result": "AB"}, {"values": ["B"], "result": "B1"}, {"values": ["C", "B"], "result": "CB"}]
+    rule_ = ExternalObj({"name": "r", "signature_type": "variable", "target": "V", "enumerated_clauses": clauses, "aggregate_function": None, "default_value": "D"})
+    fp = P.func(f"{SQLM}.vp_pair_sql")
+    try:
+        case_sql = Interp(P).call(fp, {"rule": rule_, "a_ref": "a", "b_ref": "b"})
+    except (Unmodelled, Raised) as e:
+        raise AnalysisError(f"{rule}: vp_pair_sql outside the evaluator's language for an enumerated rule: {e}")
+    try:
+        parsed = sqlexpr.parse(str(case_sql))
+    except sqlexpr.ParseError as e:
+        raise AnalysisError(f"{rule}: the generated CASE is outside the SQL evaluator's language: {e} [{str(case_sql)[:120]}]")
+    shown = 0
+    for av in ("A", "B", "C", "X"):
+        for bv in ("A", "B", "C", "X"):
+            if av == bv:
+                continue
+            n_case += 1
+            two = [c_ for c_ in clauses if len(c_["values"]) == 2 and set(c_["values"]) == {av, bv}]
+            one = [c_ for c_ in clauses if len(c_["values"]) == 1 and c_["values"][0] in (av, bv)]
+            want = two[0]["result"] if two else (one[0]["result"] if one else "D")
+            try:
+                got = sqlconc.ev(parsed, {"a": av, "b": bv}, {})
+            except sqlconc.SqlError as e:
+                got = f"<error {e}>"
+            rep.instance(rule, f"pair/{av}+{bv}", sample={"values": [av, bv], "result": got} if n_case <= 3 else None)
+            if got != want and shown < 4:
+                shown += 1
+                rep.add(transp.fnd(rule, f"pair/{av}+{bv}", fp, fp.node.lineno,
+                                   f"enumerated rule `when \"A\" then \"A1\"; when \"A\" and \"B\" then \"AB\"; when \"B\" then \"B1\"; when \"C\" and \"B\" then \"CB\"; else \"D\"`: "
+                                   f"combining {av!r} and {bv!r} yields {got!r}, the rule says {want!r} (a clause naming both values is tested before a clause naming one) "
+                                   f"[generated: {str(case_sql)[:110]}]"))
+    rep.floor(f"{rule} value pairs evaluated", n_case, 12)
+
